@@ -11,7 +11,8 @@ Local Open Scope N_scope.
 
 Inductive top : Type :=
 | TSet (view field : nat) (value : string)     (* field := value (canonical bytes, hex), through any typed accessor *)
-| TCopy (src : nat).
+| TCopy (src : nat)
+| TSetMany (view : nat) (kvs : list (nat * string)).  (* one accessor call that writes several fields (AddValidator) *)
 
 (* what Go reported after a step: per live view, (state root, field roots), and the Go-side verdict that every
    typed getter returned the stored value and Serialize() gave the stored content *)
@@ -65,6 +66,23 @@ Fixpoint run_steps (fs : list (string * ty)) (d : nat) (s : list node) (steps : 
               | _, _ => None
               end
           | TCopy v => match nth_error s v with Some t => Some (s ++ [t]) | None => None end
+          | TSetMany v kvs =>
+              match nth_error s v with
+              | Some t =>
+                  match fold_left (fun acc kb =>
+                           match acc, nth_error fs (fst kb) with
+                           | Some t1, Some (_, ft) =>
+                               match deserialize ft (unhex (snd kb)) with
+                               | Some val => set_field sha256 d t1 (fst kb) (Leaf (htr ft val))
+                               | None => None
+                               end
+                           | _, _ => None
+                           end) kvs (Some t) with
+                  | Some t' => Some (firstn v s ++ t' :: skipn (S v) s)
+                  | None => None
+                  end
+              | None => None
+              end
           end in
       match next with
       | None => 1
